@@ -105,6 +105,19 @@ prop('C10', True, "Theorems on the store model with locks and temp files: cleanu
      "Modelled, not verified: os.walk / unlink; redis via the stand-in; the active set is task.alltasks of the loaded jugfile.",
      "Lean 4 proof + kernel-checked extracted dispatch table + differential correspondence through the real subcommand")
 
+prop('C09', True, "Lean model of the command's memoised recursion (aff) and of the specification (inductive Affected): cli_eq_spec (sound and complete for every DAG in creation order), shell_union_eq_cli (shell-invalidating "
+     "every matching task = command line), store_after (exactly the affected results are removed, every other untouched), invalidate_keeps_closed (the store stays closed under dependencies, so check stays truthful and execute "
+     "re-runs exactly the removed tasks by C01/C02). Correspondence: generated DAGs x every function name as target x full/partial/holed/packed prior states x 4 backends through the real InvalidateCommand and the real shell "
+     "invalidate function; removed set = model's; monitors: nothing that really reads an invalidated result survives, nothing outside the reported closure is touched, re-execution runs exactly the removed tasks and restores values.",
+     "The shell variant's worklist algorithm is modelled by its specification (closure), tied by sampled correspondence only. Dependency ground truth measured by a cache-free sequential run.",
+     "Lean 4 proof (induction on fuel / on the Affected derivation) + differential correspondence through the real subcommands")
+prop('C15', True, "Lean model of the uncached classifier, the cached classifier (update_status) and the check walk. Theorems: classify_spec (each category's meaning; exhaustive and exclusive), totals_add_up, cached_eq_uncached "
+     "(cache = unknown or truthful status of an earlier state with fewer results => cached = uncached), check_iff (for dependency-closed stores exit 0 iff all complete; counterexample without closure). Bridge classifier_table_matches: "
+     "the real update_status is run on all 2304 combinations (dependencies among two tasks x results x lock x cached statuses) and the kernel checks every row against classifyCached. Correspondence: printed tables (all five columns per "
+     "name + Total) of the real `jug status` uncached/cached (on-disk cache along monotone histories) and the real check walk on generated DAGs x arbitrary result subsets and locks x 4 backends.",
+     "Direct dependencies = what Task.dependencies() reports (C03 ties that to reality); `jug graph`'s third copy of the classifier is not covered.",
+     "Lean 4 proof + kernel-checked exhaustive classifier table (translator) + differential correspondence on printed output")
+
 def main():
     checks, na = [], []
     ids = ['C%02d' % i for i in range(1, 21)]
